@@ -676,6 +676,7 @@ func c16Replicated(c *fw.Ctx) {
 		}
 	}
 	deadline := time.Now().Add(120 * time.Second)
+	lateCheck := false
 	for {
 		missing := ""
 		for f, per := range want {
@@ -695,12 +696,18 @@ func c16Replicated(c *fw.Ctx) {
 		if missing == "" {
 			break
 		}
-		if time.Now().After(deadline) {
-			if c10Drained(10 * time.Second) {
-				c.ViolateData("c16-replication-stalled", lastPayload, "after %d hostile payloads through the leader, with nothing in flight for 10s, %s: valid points inserted afterwards are not replicated", hostileDone, missing)
-			} else {
-				c.Inconclusive("no convergence within 120s: %s", missing)
+		if time.Now().After(deadline) && !lateCheck {
+			// slow (loaded machine) or stalled: wait until the leader's follow pipeline has been completely idle
+			// for 45s, then look once more
+			if !c10Drained(45 * time.Second) {
+				c.Inconclusive("no convergence within 120s and entries still in flight: %s", missing)
+				return
 			}
+			lateCheck = true
+			continue
+		}
+		if lateCheck {
+			c.ViolateData("c16-replication-stalled", lastPayload, "after %d hostile payloads through the leader, with its follow pipeline idle for 45s, %s: valid points inserted afterwards are not replicated", hostileDone, missing)
 			return
 		}
 		time.Sleep(100 * time.Millisecond)
